@@ -28,6 +28,22 @@ def oracle(op, a):
         v = (a[0] << 64 | a[1]) | (a[2] << 64 | a[3])
     elif op in ("and", "andi"):
         v = (a[0] << 64 | a[1]) & (a[2] << 64 | a[3])
+    elif op in ("shrio",):
+        v = (a[0] << 64 | a[1]) >> min(a[2], 200)
+    elif op in ("shlio",):
+        v = ((a[0] << 64 | a[1]) << min(a[2], 200)) % M128
+    elif op == "negio":
+        v = M128 - 1 - (a[0] << 64 | a[1])
+    elif op in ("orra", "orrb"):
+        v = (a[0] << 64 | a[1]) | (a[2] << 64 | a[3])
+    elif op in ("andra", "andrb"):
+        v = (a[0] << 64 | a[1]) & (a[2] << 64 | a[3])
+    elif op in ("orrab", "andrab"):
+        v = a[0] << 64 | a[1]
+    elif op == "addab":
+        v = (2 * (a[0] << 64 | a[1])) % M128
+    elif op == "subab":
+        v = 0
     elif op == "addia":
         v = (2 * (a[0] << 64 | a[1])) % M128
     elif op == "subia":
@@ -110,6 +126,24 @@ def gen_cases(ctx):
             cases.append((op, [ah, al]))
         for _ in range(nrand // 2):
             cases.append((op, [rw(), rw()]))
+    # the documented aliasing of the out-of-place functions (result == input, result == a / b, a == b)
+    for op in ("negio", "orrab", "andrab", "addab", "subab"):
+        for (ah, al) in grid:
+            cases.append((op, [ah, al]))
+        for _ in range(nrand // 4):
+            cases.append((op, [rw(), rw()]))
+    for op in ("orra", "orrb", "andra", "andrb"):
+        for (ah, al) in grid[::3]:
+            for (bh, bl) in grid[::4]:
+                cases.append((op, [ah, al, bh, bl]))
+        for _ in range(nrand // 4):
+            cases.append((op, [rw(), rw(), rw(), rw()]))
+    for op in ("shrio", "shlio"):
+        for (ah, al) in grid[::2]:
+            for sc in (0, 1, 31, 63, 64, 65, 100, 127, 128, 130):
+                cases.append((op, [ah, al, sc]))
+        for _ in range(nrand // 2):
+            cases.append((op, [rw(), rw(), rng.randrange(0, 131)]))
     for op in ("add", "sub", "addi", "subi", "or", "and", "ori", "andi", "cmp", "eq"):
         for (ah, al) in grid[::3]:
             for (bh, bl) in grid[::4]:
